@@ -21,8 +21,8 @@ WITNESSES = [
     dict(id="c10-exponent-label", prop="C10", file=S, expect="R10b",
          old="            t_blocks.extend(block for _ in range(tensor.exponent))", new="            t_blocks.append(block)"),
     dict(id="c10-candidates-hoisted", prop="C10", file=S, expect="R10b",
-         old="                for other_term_i in term_idx_list:\n                    if term_i == other_term_i or other_term_i in removed_terms:\n                        continue",
-         new="                for other_term_i in term_idx_list:\n                    if term_i == other_term_i:\n                        continue"),
+         old="                    if other_term_i in kept_terms or \\\n                            other_term_i in removed_terms:\n                        continue",
+         new="                    if other_term_i in kept_terms:\n                        continue"),
     dict(id="c10-remove-unrecorded", prop="C10", file=S, expect="R10b",
          old="                    removed_terms.add(other_term_i)\n                    found_sym.append((perms, factor))\n                    break",
          new="                    removed_terms.add(other_term_i)\n                    break"),
@@ -246,4 +246,22 @@ WITNESSES += [
          "                symmetry[perms] = known_factor\n"
          "                continue\n"
          "            permuted = self.permute(*perms).sympy\n")]),
+]
+
+# ---------------------------------------------------------------------------- round 5: F35 (a kept term is not generated again)
+_F35_A = ("    # terms that have already been added to the result: they must not be\n"
+          "    # generated a second time by permuting another term.\n    kept_terms = set()\n")
+_F35_B = "            kept_terms.add(term_i)\n"
+_F35_C = ("                    if other_term_i in kept_terms or \\\n                            other_term_i in removed_terms:\n")
+_F35_C_OLD = "                    if term_i == other_term_i or other_term_i in removed_terms:\n"
+WITNESSES += [
+    dict(id="c10-f35-revert", prop="C10", file=S, expect="R10b", edits=[(_F35_A, ""), (_F35_B, ""), (_F35_C, _F35_C_OLD)]),
+    # the alternative repair: the processed term joins removed_terms, which the partner search skips
+    dict(id="c10-ok-f35-twin", prop="C10", file=S, expect=None, edits=[
+        (_F35_A, ""), (_F35_B, ""), (_F35_C, _F35_C_OLD),
+        ("            # use the found symmetry as dict key\n            found_sym = tuple(found_sym)\n",
+         "            removed_terms.add(term_i)\n            # use the found symmetry as dict key\n            found_sym = tuple(found_sym)\n")]),
+    # only the current term is excluded again (kept terms of earlier rounds are candidates)
+    dict(id="c10-f35-kept-only-current", prop="C10", file=S, expect="R10b", edits=[
+        (_F35_C, "                    if other_term_i == term_i or \\\n                            other_term_i in removed_terms:\n")]),
 ]
